@@ -724,15 +724,22 @@ class ConcRun(object):
                     if not all(k in self.C07_KINDS for k in kinds):
                         tags.discard('C07')
                     break
-        if cls == 'other':
+        if cls != 'orphan-allocation':
             # a success that carried the fabricated generation 0 for a
             # consumer that did not exist at the start: it matched the
-            # record another in-flight request had just auto-created
-            for i in succ:
-                for c, g in carried_consumer_gens(batch[i]).items():
-                    if g == 0 and c not in self.state0['cons']:
+            # record another in-flight request had just auto-created.
+            # Classified so only if some serial order fails exactly those
+            # requests (with 409) and lets every other success succeed.
+            g0 = set(i for i in succ
+                     for c, g in carried_consumer_gens(batch[i]).items()
+                     if g == 0 and c not in self.state0['cons'])
+            if g0:
+                for order, st, core in serial_seen:
+                    bad = set(i for i, x in st.items() if x >= 400)
+                    if bad and bad <= g0 and all(st[i] == 409 for i in bad):
                         cls = 'generation-0-matched-transient-consumer'
                         tags = {'C07'}
+                        break
         best = None
         for order, st, core in serial_seen:
             d = dump.diff(core, coreC)
